@@ -32,7 +32,27 @@ from ..mailbox import MailboxDataInterface, MailboxSetInterface
 __all__ = ['Maildir', 'Message', 'MailboxData', 'MailboxSet']
 
 
+class _RawMaildirMessage(MaildirMessage):
+    """Carries the maildir metadata of a message together with its exact
+    bytes, which are written to disk verbatim instead of being re-generated
+    by the :mod:`email` package.
+
+    """
+
+    def __init__(self, raw: bytes) -> None:
+        super().__init__()
+        self.raw = raw
+
+
 class Maildir(_Maildir):
+
+    def _dump_message(self, message: Any, target: Any,
+                      mangle_from_: bool = False) -> None:
+        if isinstance(message, _RawMaildirMessage):
+            target.write(message.raw)
+        else:
+            super()._dump_message(  # type: ignore
+                message, target, mangle_from_)
 
     @property
     def _path_new(self) -> str:
@@ -146,11 +166,11 @@ class Message(BaseMessage):
                 or requirement.has_none(FetchRequirement.CONTENT):
             return LoadedMessage(self, requirement, None)
         try:
-            maildir_msg = self._maildir.get_message(self._key)
+            raw = self._maildir.get_bytes(self._key)
         except (KeyError, FileNotFoundError):
             return LoadedMessage(self, requirement, None)
         else:
-            content = MessageContent.parse(bytes(maildir_msg))
+            content = MessageContent.parse(raw)
             return LoadedMessage(self, requirement, content)
 
     @classmethod
@@ -165,7 +185,7 @@ class Message(BaseMessage):
                    maildir_flags: MaildirFlags) -> MaildirMessage:
         flag_str = maildir_flags.to_maildir(append_msg.flag_set)
         when = append_msg.when or datetime.now()
-        maildir_msg = MaildirMessage(append_msg.literal)
+        maildir_msg = _RawMaildirMessage(append_msg.literal)
         maildir_msg.set_flags(flag_str)
         maildir_msg.set_subdir('new' if recent else 'cur')
         maildir_msg.set_date(when.timestamp())
